@@ -1183,7 +1183,7 @@ def r9_compare_by_interpretation(rep, src, tier):
     FAMILY = ['1.0', '1.00', '0:1.0', '1:0.5', '01:0.5', '2:0', '1.0-0', '1.0-1', '1.0-01', '1.0~rc1', '1.0~', '1.0~~', '1.0a', '1.0+', '1.0.', '1.0.0', '1.10', '1.9',
               '1.0-1~', '1.0-1a', '1a', '1', 'a', '~', '1+b1', '1-1-1', '1:1:1']
     if tier == 'thorough':
-        FAMILY += ['1.0-a', '1.0-+', '0', '00', '0~0', '9', '10', '010', '1.a1', '1.a01', '1.-', '1.~1', '1..1', '2~~a', '2~a', '2a~', '0:0-0', '1.0-1.0', '1.0-1-0']
+        FAMILY += ['1.0-a', '1.0-+', '0', '00', '0~0', '9', '10', '010', '1.a1', '1.a01', '1.-1', '1.~1', '1..1', '2~~a', '2~a', '2a~', '0:0-0', '1.0-1.0', '1.0-1-0']
     heap = H.Heap(mod)
     heap.native_regex = True
     heap.intercept_setattr = True
